@@ -17,7 +17,15 @@ import (
 func verifConservationOracle(sim *verifledger.Sim, tx *common.VersionedTransaction) (bad string) {
 	in := new(big.Int)
 	special := 0
+	listed := map[string]bool{}
 	for _, i := range tx.Inputs {
+		if i.Deposit == nil && i.Mint == nil && len(i.Genesis) == 0 {
+			k := fmt.Sprintf("%s:%d", i.Hash, i.Index)
+			if listed[k] {
+				return fmt.Sprintf("input %s is listed twice (one existing output cannot fund the outputs twice)", k)
+			}
+			listed[k] = true
+		}
 		switch {
 		case len(i.Genesis) > 0:
 			return "genesis input accepted"
@@ -136,7 +144,12 @@ func TestVerif_C01(t *testing.T) {
 				specs[0] = verifgen.OutSpec{Type: common.OutputTypeWithdrawalSubmit, Amount: specs[0].Amount,
 					Withdrawal: &common.WithdrawalData{Address: "addr", Tag: "tag"}}
 			}
-			switch rng.Intn(9) {
+			switch rng.Intn(10) {
+			case 9: // the same output listed twice, its amount claimed twice
+				pert = "duplicated-input"
+				dup := ins[rng.Intn(len(ins))]
+				ins = append(ins, dup)
+				specs = append(specs, w.spec(dup.Amount, 2))
 			case 0:
 				pert = "output+1"
 				specs[len(specs)-1].Amount = verifgen.Units(new(big.Int).Add(parts[len(parts)-1], big.NewInt(1)))
@@ -278,14 +291,22 @@ func TestVerif_C01(t *testing.T) {
 
 		var verr error
 		var parsed *common.VersionedTransaction
+		// both validation modes: proposal/admission, and (if that one refuses) the finalization path
+		mode := "admission"
 		panicked, pv, stack := verifkit.Guard(func() {
 			parsed, verr = verifgen.Reparse(tx)
 			if verr != nil {
 				return
 			}
 			verr = parsed.Validate(sim.Store, ts, false)
+			if verr != nil {
+				if p2, err := verifgen.Reparse(tx); err == nil && p2.Validate(sim.Store, ts, true) == nil {
+					parsed, verr, mode = p2, nil, "finalization-path"
+				}
+			}
 		})
 		r.Eval()
+		r.Count("accepted_or_rejected_in_mode_"+mode, 1)
 		r.Count("kind_"+kind, 1)
 		if panicked {
 			// crashes are the subject of C05; here they only mean "no decision observed"
@@ -308,8 +329,8 @@ func TestVerif_C01(t *testing.T) {
 		r.Count("accepted_"+kind, 1)
 		r.Nontrivial("accept|" + tx.PayloadHash().String())
 		if bad := verifConservationOracle(sim, parsed); bad != "" {
-			r.Violation("C01|"+kind+"|"+pert, fmt.Sprintf("accepted %s transaction (perturbation %s) violates conservation: %s", kind, pert, bad),
-				map[string]any{"kind": kind, "perturbation": pert, "tx": fmt.Sprintf("%x", tx.Marshal()), "snapshot_time": ts, "oracle": bad})
+			r.Violation("C01|"+kind+"|"+pert, fmt.Sprintf("accepted %s transaction (perturbation %s, %s validation) violates conservation: %s", kind, pert, mode, bad),
+				map[string]any{"kind": kind, "perturbation": pert, "validation_mode": mode, "tx": fmt.Sprintf("%x", tx.Marshal()), "snapshot_time": ts, "oracle": bad})
 			continue
 		}
 		if r.SampleCount() < 4 {
@@ -317,7 +338,11 @@ func TestVerif_C01(t *testing.T) {
 		}
 		// evolve the ledger with most accepted transactions
 		if rng.Intn(4) != 0 {
-			if err := w.sim.Admit(parsed, ts); err != nil {
+			admit := w.sim.Admit
+			if mode == "finalization-path" {
+				admit = w.sim.AdmitFinal
+			}
+			if err := admit(parsed, ts); err != nil {
 				r.Count("admit_errors", 1)
 				continue
 			}
